@@ -101,6 +101,10 @@ def gen(seed, prop, k, mode):
             mode == "dbg" and "Debug" not in traits or mode == "clone" and "Clone" not in traits:
         return None
     shuffled = list(traits)
+    if "PartialEq" in traits and "Eq" not in traits and rng.random() < 0.6:
+        # educe's Eq is a marker impl without a check of the field types: educing it next to PartialEq on a type with
+        # float fields is accepted, and must not change what == does
+        shuffled.append("Eq")
     rng.shuffle(shuffled)
 
     def body(derive_line):
